@@ -288,10 +288,7 @@ impl<S: ClientStream> AgentClient<S> {
         let _t = resp.read_string()?;
         let sig = resp.read_string()?;
 
-        let mut out = [0; 64];
-        out.copy_from_slice(sig);
-
-        Ok(out)
+        sig.try_into().map_err(|_| Error::AgentProtocolError)
     }
 
     /// Ask the agent to remove a key from its memory.
